@@ -1,4 +1,5 @@
 import SieveModel.Lemmas.ClientRead
+import SieveModel.Lemmas.Session
 /-!
 # C05 — ManageSieve replies are read identically however the bytes are segmented
 
@@ -75,6 +76,20 @@ theorem connect_without_tls_independent (c : Client) (env : ConnEnv) (n1 n2 : Ne
     (hl : n1.later = n2.later) (login password authz : Bytes) (mech : Option Bytes) :
     RelC (connect c env n1 login password authz false mech) (connect c env n2 login password authz false mech) :=
   connect_plain_congr c env n1 n2 hs hl login password authz mech
+
+/-- **whole sessions**: for every list of public operations, two clients that differ only in how the pending bytes are
+    split between buffer and socket and in their recv schedules give the same result for every operation, in order -/
+theorem session_independent_of_segmentation (ops : List Op) (a b : Client) (h : SameC a b) :
+    (runOps a ops).1 = (runOps b ops).1 ∧ SameC (runOps a ops).2 (runOps b ops).2 :=
+  runOps_congr ops a b h
+
+/-- … also when the session begins with `connect` (without STARTTLS) on two deliveries of the same server bytes -/
+theorem connected_session_independent_of_segmentation (c : Client) (env : ConnEnv) (n1 n2 : Net) (hs : n1.stream = n2.stream)
+    (hl : n1.later = n2.later) (login password authz : Bytes) (mech : Option Bytes) (ops : List Op) :
+    (connect c env n1 login password authz false mech).1 = (connect c env n2 login password authz false mech).1 ∧
+    (runOps (connect c env n1 login password authz false mech).2 ops).1 =
+      (runOps (connect c env n2 login password authz false mech).2 ops).1 :=
+  connect_then_session_congr c env n1 n2 hs hl login password authz mech ops
 
 /-- non-vacuity: a literal delivered one byte at a time is read whole and the status line after it
     is still there for the reader -/
